@@ -248,6 +248,16 @@ class Ctx:
         """Builds the whole development, lints it, and reports the obligations of
         Properties/<prop>.v. Returns True iff the property's theorems are checked."""
         rel = "Properties/%s.v" % self.prop
+        # Gen/*.v (error-code tables, constants) always come from the tree under test: a previous run on another tree
+        # (VERIF_REPO) may have left other tables behind, and a change to /repo must change what Coq checks.
+        try:
+            from . import gen
+            gok, gmsg = gen.regenerate(self)
+            self.coverage["gen_regenerated"] = bool(gok)
+            if not gok:
+                self.note("T3 regenerate failed: " + gmsg[-300:])
+        except Exception as ex:  # noqa
+            self.note("T3 regenerate crashed: %r" % (ex,))
         b = coq_build()
         lint = coq_lint()
         rep = coq_property_report(self.prop) if coq_vo_ok(rel) or (COQ / rel).exists() else dict(ok=False, theorems=[], assumptions={}, log="")
